@@ -8,7 +8,6 @@ import (
 	"os"
 	"sync/atomic"
 
-	"github.com/codenotary/immudb/embedded/htree"
 	"github.com/codenotary/immudb/embedded/store"
 	"verif/mc/lib"
 	"verif/mc/merkle"
@@ -213,39 +212,39 @@ func completeness(cfg HistCfg, w *World, st *store.ImmuStore) {
 		for t := 1; t <= n; t++ {
 			if s > t {
 				if _, err := st.DualProof(w.hdr[s], w.hdr[t]); err == nil {
-					viol(fmt.Sprintf("rejects-honest api=DualProof pair=(%d,%d) history=%s", s, t, hist), "DualProof(source newer than target) returned a proof instead of ErrSourceTxNewerThanTargetTx", nil)
+					viol(fmt.Sprintf("rejects-honest api=DualProof pair=(%d,%d) history=%s", s, t, hist), "DualProof(source newer than target) returned a proof instead of ErrSourceTxNewerThanTargetTx", map[string]any{"hist": cfg, "s": 1})
 				}
 				continue
 			}
 			c.Eval("")
 			p, err := st.DualProof(w.hdr[s], w.hdr[t])
 			if err != nil {
-				viol(fmt.Sprintf("rejects-honest api=DualProof pair=(%d,%d) history=%s", s, t, hist), "DualProof failed: "+err.Error(), cfg)
+				viol(fmt.Sprintf("rejects-honest api=DualProof pair=(%d,%d) history=%s", s, t, hist), "DualProof failed: "+err.Error(), map[string]any{"hist": cfg, "s": 1})
 				continue
 			}
 			w.dual[s][t] = p
 			if !store.VerifyDualProof(p, uint64(s), uint64(t), w.alh[s], w.alh[t]) {
 				viol(fmt.Sprintf("rejects-honest api=VerifyDualProof pair=(%d,%d) history=%s", s, t, hist),
-					fmt.Sprintf("honest proof rejected (source BlTxID=%d target BlTxID=%d)", w.bl(s), w.bl(t)), cfg)
+					fmt.Sprintf("honest proof rejected (source BlTxID=%d target BlTxID=%d)", w.bl(s), w.bl(t)), map[string]any{"hist": cfg, "s": 1})
 			} else {
 				atomic.AddInt64(&cnt.honestOK, 1)
 			}
 			q, err := st.DualProofV2(w.hdr[s], w.hdr[t])
 			if noLag {
 				if err != nil {
-					viol(fmt.Sprintf("rejects-honest api=DualProofV2 pair=(%d,%d) history=%s", s, t, hist), "DualProofV2 failed: "+err.Error(), cfg)
+					viol(fmt.Sprintf("rejects-honest api=DualProofV2 pair=(%d,%d) history=%s", s, t, hist), "DualProofV2 failed: "+err.Error(), map[string]any{"hist": cfg, "s": 1})
 				} else if err := store.VerifyDualProofV2(q, uint64(s), uint64(t), w.alh[s], w.alh[t]); err != nil {
-					viol(fmt.Sprintf("rejects-honest api=VerifyDualProofV2 pair=(%d,%d) history=%s", s, t, hist), "honest proof rejected: "+err.Error(), cfg)
+					viol(fmt.Sprintf("rejects-honest api=VerifyDualProofV2 pair=(%d,%d) history=%s", s, t, hist), "honest proof rejected: "+err.Error(), map[string]any{"hist": cfg, "s": 1})
 				} else {
 					w.v2[s][t] = q
 					atomic.AddInt64(&cnt.honestOK, 1)
 				}
 			} else if err == nil && (w.bl(s) != s-1 || w.bl(t) != t-1) {
-				viol(fmt.Sprintf("rejects-honest api=DualProofV2 pair=(%d,%d) history=%s", s, t, hist), "DualProofV2 produced a proof for a lagging header (must be ErrUnexpectedLinkingError)", cfg)
+				viol(fmt.Sprintf("rejects-honest api=DualProofV2 pair=(%d,%d) history=%s", s, t, hist), "DualProofV2 produced a proof for a lagging header (must be ErrUnexpectedLinkingError)", map[string]any{"hist": cfg, "s": 1})
 			}
 			lp, err := st.LinearProof(uint64(s), uint64(t))
 			if err != nil || !store.VerifyLinearProof(lp, uint64(s), uint64(t), w.alh[s], w.alh[t]) {
-				viol(fmt.Sprintf("rejects-honest api=VerifyLinearProof pair=(%d,%d) history=%s", s, t, hist), fmt.Sprintf("err=%v", err), cfg)
+				viol(fmt.Sprintf("rejects-honest api=VerifyLinearProof pair=(%d,%d) history=%s", s, t, hist), fmt.Sprintf("err=%v", err), map[string]any{"hist": cfg, "s": 1})
 			} else {
 				w.lin[s][t] = lp
 				atomic.AddInt64(&cnt.honestOK, 1)
@@ -255,7 +254,7 @@ func completeness(cfg HistCfg, w *World, st *store.ImmuStore) {
 				start := s - 1
 				la, err := st.LinearAdvanceProof(uint64(start), uint64(t), uint64(size))
 				if err != nil || !store.VerifyLinearAdvanceProof(la, uint64(start), uint64(t), w.alh[t], merkle.Root(leaves[:size]), uint64(size)) {
-					viol(fmt.Sprintf("rejects-honest api=VerifyLinearAdvanceProof pair=(%d,%d) history=%s size=%d", start, t, hist, size), fmt.Sprintf("err=%v", err), cfg)
+					viol(fmt.Sprintf("rejects-honest api=VerifyLinearAdvanceProof pair=(%d,%d) history=%s size=%d", start, t, hist, size), fmt.Sprintf("err=%v", err), map[string]any{"hist": cfg, "s": 1})
 				} else {
 					atomic.AddInt64(&cnt.honestOK, 1)
 				}
@@ -266,7 +265,7 @@ func completeness(cfg HistCfg, w *World, st *store.ImmuStore) {
 		for i, e := range w.ents[id] {
 			c.Eval("")
 			if !store.VerifyInclusion(w.iproofs[id][i], e.Dig, w.hdr[id].Eh) {
-				viol(fmt.Sprintf("rejects-honest api=VerifyInclusion pair=(%d,%d) history=%s key=%s", id, id, hist, e.Key), "honest entry inclusion proof rejected", cfg)
+				viol(fmt.Sprintf("rejects-honest api=VerifyInclusion pair=(%d,%d) history=%s key=%s", id, id, hist, e.Key), "honest entry inclusion proof rejected", map[string]any{"hist": cfg, "s": 1})
 			} else {
 				atomic.AddInt64(&cnt.honestOK, 1)
 			}
@@ -784,7 +783,7 @@ func (p *job) soundS(s int, pairs bool) {
 		}
 		c.Distinct(fmt.Sprintf("%v:%d:%d", p.cfg, s, t))
 		if acc, bad := p.check("rejects-honest", tr, base, func() string { return "none" }); !acc || bad != "" {
-			viol(fmt.Sprintf("rejects-honest api=client-step pair=(%d,%d) history=%v", s, t, p.cfg), "the client-side verification flow rejects the honest response: "+bad, p.cfg)
+			viol(fmt.Sprintf("rejects-honest api=client-step pair=(%d,%d) history=%v", s, t, p.cfg), "the client-side verification flow rejects the honest response: "+bad, map[string]any{"hist": p.cfg, "s": 1})
 			continue
 		}
 		lo, hi := s, t
@@ -1010,4 +1009,3 @@ func runStore(cfgs []HistCfg, pairs bool) {
 	}
 }
 
-var _ = htree.VerifyInclusion
